@@ -14,7 +14,7 @@ import fw
 
 ID = 'C10'
 LEVEL = 'proof'
-LEAN_TARGETS = ['BareProofs.C10Pins', 'BareProofs.C10', 'BareProofs.C06Caret']
+LEAN_TARGETS = ['BareProofs.C10Pins', 'BareProofs.C10', 'BareProofs.C06Caret', 'BareProofs.C10Ws']
 DRIVER = 'drv_c10'
 DRIVER_ROOT = 'Drv.C10'
 GEN = ['Regex']
@@ -26,6 +26,13 @@ THEOREMS = [
     'C10.continuation_join', 'C10.logical_lines_compositional', 'C10.scriptLines_eq', 'C10.scriptLines_chunks',
     'C10.leading_ws_irrelevant_shape', 'C10.leading_ws_irrelevant_stmt', 'C10.leading_ws_irrelevant', 'C10.trailing_ws_irrelevant_partial', 'C10.keyword_line_layout',
     'C06.caret_under_same_char', 'C06.caret_row', 'C06.caret_in_range',
+    # BareProofs/C10Ws.lean (+ C10WsLemmas.lean): the layout theorems for the actual expression parser model, unconditional
+    'C10.isPySpace_eq_isSpace', 'C10.parseUnary_rel', 'C10.lead_respects', 'C10.gap_respects', 'C10.gap_of_topLevelAt',
+    'C10.parseExpr_fuel', 'C10.parseExpr_leading_blanks', 'C10.parseExpr_skips_leading_blanks',
+    'C10.leading_ws_irrelevant_parseExpr', 'C10.leading_ws_irrelevant_classify',
+    'C10.parseExpr_gap', 'C10.parseExpr_trailing_blanks', 'C10.shape_append_ws', 'C10.trailing_ws_irrelevant',
+    'C10.parseExpr_blank_stretch', 'C10.parseExpr_blank_stretch_at', 'C10.classifyL_gap', 'C10.shape_assign_replace',
+    'C10.continuation_break_line', 'C10.continuation_break_irrelevant', 'C10.continuation_break_irrelevant_assign',
 ]
 ASSUMPTIONS = [
     'CPython re engine: each anchored statement pattern is re-implemented by a hand-written recogniser (Scan.lean); tied by the '
@@ -35,8 +42,11 @@ ASSUMPTIONS = [
     'Lines contain no "\\n" (theorem C10.splitLines_no_newline): "." / "$" subtleties of re about a final newline never arise',
     'Scan.classify instantiated with ExprParse.parseExpr is compared on lines without non-ASCII word characters only (ExprScan models '
     'the ASCII part of \\w / \\d; Text.isWord / Scan.shape are exact for all of Unicode and are compared on every line)',
-    'Expression text is opaque to C10: classify is parametric in parseExpr; leading_ws_irrelevant is conditional on the stated '
-    'hypothesis SkipsLeadingBlanks about parseExpr (same tree or same error text with leading blanks); leading_ws_irrelevant_stmt needs no hypothesis',
+    'classify is parametric in parseExpr; the hypothesis SkipsLeadingBlanks of leading_ws_irrelevant is DISCHARGED for the expression parser '
+    'model ExprParse.parseExpr (C10.parseExpr_skips_leading_blanks), as are trailing blanks for every statement kind '
+    '(C10.trailing_ws_irrelevant; exclusion: a line ending in "=") and the stretching of a blank outside string literals / bracketed '
+    'names (C10.parseExpr_gap); through classify the latter is a theorem for assignments and conditional on "the statement pattern '
+    'captures the same groups" for the other kinds (C10.classifyL_gap, hypothesis h3)',
 ]
 TRUSTED = ['the regex proxies that record which statement pattern matched (harness, in-process, restored after each stream)']
 
